@@ -1269,4 +1269,84 @@ theorem tableContiguousB_iff' (ign : List String) (t : List Bin) :
     tableContiguousB ign t = true ↔ TableContiguous ign t := by
   simp only [tableContiguousB, TableContiguous, List.all_eq_true, contiguousB_iff']
 
+/-! ### tables whose chromosomes are adjacent blocks -/
+
+theorem ChromGrouped.tail {b : Bin} {t : List Bin} (h : ChromGrouped (b :: t)) : ChromGrouped t := by
+  intro i j k bi bj bk hij hjk hi hj hk
+  exact h (i + 1) (j + 1) (k + 1) bi bj bk (by omega) (by omega)
+    (by simpa using hi) (by simpa using hj) (by simpa using hk)
+
+theorem flatMap_congr_mem {α β} {l : List α} {f g : α → List β} (h : ∀ x ∈ l, f x = g x) :
+    l.flatMap f = l.flatMap g := by
+  induction l with
+  | nil => rfl
+  | cons a l ih =>
+    simp only [List.flatMap_cons]
+    rw [h a (by simp), ih (fun x hx => h x (List.mem_cons_of_mem _ hx))]
+
+/-- in a grouped table, if the first row's chromosome occurs later, the second row carries it -/
+theorem head_chrom_of_grouped {b b' : Bin} {t : List Bin} (h : ChromGrouped (b :: b' :: t))
+    (hm : b.chrom ∈ (b' :: t).map (·.chrom)) : b'.chrom = b.chrom := by
+  obtain ⟨x, hx, hxc⟩ := List.mem_map.mp hm
+  obtain ⟨k, hk⟩ := List.mem_iff_getElem?.mp hx
+  exact h 0 1 (k + 1) b b' x (by omega) (by omega) (by simp) (by simp) (by simpa using hk) hxc.symm
+
+theorem flatMap_keys_of_grouped (t : List Bin) (h : ChromGrouped t) :
+    (firstKeys (t.map (·.chrom))).flatMap (fun c => t.filter (fun b => b.chrom == c)) = t := by
+  induction t with
+  | nil => simp [firstKeys]
+  | cons b t ih =>
+    have ih' := ih h.tail
+    simp only [List.map_cons, firstKeys, List.flatMap_cons]
+    have h1 : (b :: t).filter (fun x => x.chrom == b.chrom) =
+        b :: t.filter (fun x => x.chrom == b.chrom) := by
+      simp
+    have h2 : ((firstKeys (t.map (·.chrom))).filter (· != b.chrom)).flatMap
+          (fun c => (b :: t).filter (fun x => x.chrom == c)) =
+        ((firstKeys (t.map (·.chrom))).filter (· != b.chrom)).flatMap
+          (fun c => t.filter (fun x => x.chrom == c)) := by
+      apply flatMap_congr_mem
+      intro c hc
+      have hp := (List.mem_filter.mp hc).2
+      have hne : ¬ b.chrom = c := by
+        intro e
+        simp [e] at hp
+      simp [hne]
+    rw [h1, h2, List.cons_append]
+    congr 1
+    by_cases hm : b.chrom ∈ t.map (·.chrom)
+    · cases t with
+      | nil => simp at hm
+      | cons b' t =>
+        have hc := head_chrom_of_grouped h hm
+        simp only [List.map_cons, firstKeys, hc] at ih' ⊢
+        have e : (b.chrom :: (firstKeys (t.map (·.chrom))).filter (· != b.chrom)).filter (· != b.chrom) =
+            (firstKeys (t.map (·.chrom))).filter (· != b.chrom) := by
+          simp [List.filter_filter]
+        rw [e]
+        simpa only [List.flatMap_cons] using ih'
+    · have e1 : t.filter (fun x => x.chrom == b.chrom) = [] := by
+        apply List.filter_eq_nil_iff.mpr
+        intro x hx hxc
+        exact hm (List.mem_map.mpr ⟨x, hx, by simpa using hxc⟩)
+      have e2 : (firstKeys (t.map (·.chrom))).filter (· != b.chrom) = firstKeys (t.map (·.chrom)) := by
+        apply List.filter_eq_self.mpr
+        intro c hc
+        have hc' := mem_firstKeys.mp hc
+        have hne : c ≠ b.chrom := by
+          intro e
+          exact hm (e ▸ hc')
+        simpa using hne
+      rw [e1, e2, List.nil_append]
+      exact ih'
+
+/-- `by_chromosome()` on a table whose chromosomes are adjacent blocks hands the rows out in table order -/
+theorem byChrom_flatten_of_grouped' (t : List Bin) (h : ChromGrouped t) :
+    ((byChrom t).map (·.2)).flatten = t := by
+  have h3 : ((byChrom t).map (·.2)).flatten =
+      (firstKeys (t.map (·.chrom))).flatMap (fun c => t.filter (fun b => b.chrom == c)) := by
+    simp [byChrom, List.flatMap_def, List.map_map, Function.comp_def]
+  rw [h3]
+  exact flatMap_keys_of_grouped t h
+
 end CnvVerif.Genes
